@@ -387,6 +387,19 @@ def export_3MF(mesh, batch_size=4096, compression=zipfile.ZIP_DEFLATED, compress
                         }
                         with xf.element("object", **attribs):
                             with xf.element("components"):
+                                # geometry attached to a node which also has
+                                # children is a component of that node
+                                own = mesh.graph.transforms.node_data[node].get("geometry")
+                                if own is not None:
+                                    xf.write(
+                                        etree.Element(
+                                            "component",
+                                            {
+                                                "objectid": model_id(own),
+                                                "transform": "1.0 0.0 0.0 0.0 1.0 0.0 0.0 0.0 1.0 0.0 0.0 0.0",
+                                            },
+                                        )
+                                    )
                                 for next, data in graph[node].items():
                                     transform = " ".join(
                                         str(i)
@@ -398,8 +411,10 @@ def export_3MF(mesh, batch_size=4096, compression=zipfile.ZIP_DEFLATED, compress
                                         etree.Element(
                                             "component",
                                             {
+                                                # a leaf is an instance of its geometry, a node
+                                                # with children has its own components object
                                                 "objectid": model_id(data["geometry"])
-                                                if "geometry" in data
+                                                if "geometry" in data and len(graph[next]) == 0
                                                 else model_id(next),
                                                 "transform": transform,
                                             },
@@ -419,7 +434,9 @@ def export_3MF(mesh, batch_size=4096, compression=zipfile.ZIP_DEFLATED, compress
                             etree.Element(
                                 "item",
                                 {
-                                    "objectid": model_id(node),
+                                    "objectid": model_id(data["geometry"])
+                                    if "geometry" in data and len(graph[node]) == 0
+                                    else model_id(node),
                                     "transform": transform,
                                     uuid_tag: str(uuid.uuid4()),
                                 },
